@@ -531,7 +531,7 @@ PROPS["C08"].streams.append(
 #      Here the assert-enabled build must abort on the corresponding assertion exactly where the model reports Fault.
 import re as _re
 _ASSERT_ID_KEY = {"1": "refcount", "61": "is_int", "62": "int_width", "63": "is_float", "64": "float_width", "65": "isa_float_ctrl", "66": "float_width",
-                  "67": "is_bool", "70": "isa_uint", "71": "isa_negint", "72": "isa_bytestring", "73": "isa_string", "74": "isa_array", "75": "isa_map",
+                  "20": "chunk_isa_bytestring", "21": "chunk_is_definite", "67": "is_bool", "70": "isa_uint", "71": "isa_negint", "72": "isa_bytestring", "73": "isa_string", "74": "isa_array", "75": "isa_map",
                   "76": "isa_tag", "77": "isa_float_ctrl"}
 def _cond_key(fn, cond):
     if "refcount > 0" in cond: k = "refcount"
@@ -543,6 +543,9 @@ def _cond_key(fn, cond):
     # functions whose assertions model H numbers individually; everywhere else the model says FType (wrong kind of item)
     if _re.match(r"cbor_(set_|mark_|serialize_|decref)", fn):
         return k
+    # the two assertions of cbor_bytestring_add_chunk on its second argument (model ids 20 / 21, AUDIT.md D3)
+    if fn == "cbor_bytestring_add_chunk" and "(chunk)" in cond:
+        return "chunk_" + k
     return "type"
 def assert_canon(line):
     if line.startswith("CRASH") and "Assertion" in line:
@@ -554,7 +557,7 @@ def assert_canon(line):
     return line
 PROPS["C04"].streams.append(Stream(
     "audit-asserts", "hist", histgen.audit_assert_cases, args=(LDEF, CAP, "none", 0), flavours=("dbg",), nontrivial=lambda c, l: True, canon=assert_canon,
-    rule="one call per CBOR_ASSERT that model H renders as assert_ (ids 1, 61-67, 70-77) or as FType on a client-reachable path (setters and markers on the wrong "
+    rule="one call per CBOR_ASSERT that model H renders as assert_ (ids 1, 20-21, 61-67, 70-77) or as FType on a client-reachable path (setters and markers on the wrong "
          "type / width, decref at count 0, push / map add / tag set / tag item / add chunk / set_handle on the wrong kind of item, each typed serializer on another "
          "type): the assert-enabled build must abort on the corresponding assertion exactly where the model reports Fault (both sides canonicalised to "
          "'ASSERT <condition class>')"))
